@@ -119,7 +119,7 @@ Lemma add_nodes_ext st l r : ext_res st (add_nodes st l r).
 Proof. unfold add_nodes. ext_auto. Qed.
 Lemma sub_nodes_ext st l r : ext_res st (lift2 sub_nodes st l r).
 Proof. unfold lift2, sub_nodes. ext_auto. Qed.
-Lemma mul_nodes_ext st l r : ext_res st (lift2 mul_nodes st l r).
+Lemma mul_nodes_ext fl st l r : ext_res st (lift2 (mul_nodes fl) st l r).
 Proof. unfold lift2, mul_nodes. ext_auto. Qed.
 Lemma mod_nodes_ext st l r : ext_res st (lift2 mod_nodes st l r).
 Proof. unfold lift2, mod_nodes. ext_auto. Qed.
